@@ -4,7 +4,7 @@ Only statements of the property (and non-vacuity examples) live here; helper lem
 Lemmas / Accept / Ops / Laws.  The state machine is `BV.C10.step` (Model.lean): one public mempool
 call or one block connect / disconnect notification handled by netsync.
 -/
-import BV.C10.Sound
+import BV.C10.Fresh
 import BV.Generated.C10
 namespace BV.C10
 open Spec Lemmas
@@ -142,11 +142,17 @@ example : Universe exW := by
   · rintro t (rfl | rfl | rfl | rfl) x hx <;> simp [exA, exB, exCb] at hx <;> subst hx <;> decide
   · rintro a b (rfl | rfl | rfl | rfl) (rfl | rfl | rfl | rfl) h <;> first | rfl | (exact absurd h (by decide))
 
-example (pol : Policy) : RunOk exW pol (State.init 1 0)
+def exPol : Policy := ⟨false, false, 100, 100000, 1000, true, true⟩
+
+/-- a history satisfying every hypothesis used below (`RunOkM`, hence `RunOk`) -/
+example : RunOkM exW exPol (State.init 1 0)
     [.connect ⟨exCb 1, [], 10⟩ [], .process exB true false 0 0 [], .process exA true false 0 0 [],
-     .connect ⟨exCb 7, [exA], 20⟩ [], .disconnect] :=
-  ⟨⟨Or.inr (Or.inr (Or.inl rfl)), fun _ h => by cases h⟩, Or.inr (Or.inl rfl), Or.inl rfl,
-   ⟨Or.inr (Or.inr (Or.inr rfl)), fun T h => by simp at h; subst h; exact Or.inl rfl⟩, trivial, trivial⟩
+     .connect ⟨exCb 7, [exA], 20⟩ [], .disconnect] := by
+  refine ⟨⟨Or.inr (Or.inr (Or.inl rfl)), fun _ h => by cases h⟩, ?_, Or.inr (Or.inl rfl), trivial, Or.inl rfl, trivial,
+   ⟨Or.inr (Or.inr (Or.inr rfl)), fun T h => by simp at h; subst h; exact Or.inl rfl⟩, ?_, trivial, trivial, trivial⟩
+  · intro u hu; simp [State.init, Pool.empty, Pool.txs] at hu
+  · show ∀ u ∈ Pool.txs _, ∀ x ∈ TxAbs.ins u, OutPoint.txid x ≠ (exCb 7).id
+    decide
 
 /-- removing a transaction together with its redeemers removes a set closed under pooled redeemers:
 nothing that stays in the pool spends an output of anything that was removed -/
@@ -195,18 +201,41 @@ theorem admission_conditions (pol : Policy) (c : Chain) (s : Pool) (t : TxAbs) (
 theorem finality_monotone (t : TxAbs) (h h' m m' : Nat) (hh : h ≤ h') (hm : m ≤ m')
     (hf : isFinal t h m = true) : isFinal t h' m' = true := isFinal_mono hh hm hf
 
-/-- Minable, partial: with the invariants proved above (NoDoubleSpend, acyclicity by ranks,
-InputsAvailable) the pooled set listed in ascending id order is a valid block body on the chain view,
-PROVIDED every pooled transaction satisfies its admission conditions against the current view.
-Missing for the full clause: that `Local` persists for every pooled transaction across all
-operations while height/MTP do not move backwards (proved here only for finality,
-`finality_monotone`); that part is covered by the `CheckConnectBlockTemplate` observation of the
-correspondence run, not by a theorem. -/
-theorem minable_partial (c : Chain) (s : Pool) (l : List TxAbs)
+/-- with the invariants (NoDoubleSpend, acyclicity by ranks, InputsAvailable) the pooled set listed in
+ascending id order is a valid block body on the chain view, provided every pooled transaction meets its
+admission conditions against that view -/
+theorem minable_of_invariants (c : Chain) (s : Pool) (l : List TxAbs)
     (nds : NoDoubleSpend s) (rk : PoolRanked s) (av : InputsAvailable c s)
     (loc : ∀ t ∈ s.txs, Local c t)
     (hl : ∀ t, t ∈ s.txs ↔ t ∈ l) (hs : l.Pairwise (fun a b => a.id < b.id)) : ValidSeq c [] l :=
   validSeq_sorted nds rk av loc l [] (fun t => by rw [hl t]; simp) hs (fun a h => by cases h)
+
+/-- inductive step: pooled transactions whose `fresh` flag is still set (chain height and median time have
+not moved backwards since their admission, and no stand-alone RemoveTransaction(tx,false) orphaned
+them) still meet their admission conditions after every operation -/
+theorem admission_conditions_persist (pol : Policy) (st : State) (op : Op) (h : FL st.chain st.pool)
+    (hc : ConnectFresh st op) : FL (step pol st op).1.chain (step pol st op).1.pool :=
+  step_fl pol st op h hc
+
+/-- Minable: after any history (respecting `OpOk`, connecting only blocks whose coinbase is new), if chain
+height and median time have not moved backwards since the admission of any pooled transaction (all
+`fresh`), the pooled set in dependency order (ascending id) is valid in the next block: every input is
+unspent in the chain view or created earlier in the list and not spent earlier in the list, no duplicate
+inputs, coinbase maturity, finality for next height / MTP, and the per-transaction facts (sanity,
+values, scripts, sequence locks) hold.  The per-transaction facts are the harness-supplied fields of
+`TxAbs` (BIP68 sequence locks in particular are a context-free bit here). -/
+theorem minable_always (W : TxAbs → Prop) (U : Universe W) (pol : Policy) (maturity mtp0 : Nat) (ops : List Op)
+    (h : RunOkM W pol (State.init maturity mtp0) ops) (l : List TxAbs) :
+    let st := (run pol (State.init maturity mtp0) ops).1
+    (∀ e ∈ st.pool.pool, e.fresh = true) → (∀ t, t ∈ st.pool.txs ↔ t ∈ l) →
+    l.Pairwise (fun a b => a.id < b.id) → ValidSeq st.chain [] l := by
+  intro st hfresh hl hs
+  have g := run_goodSt U pol ops _ (goodSt_init W maturity mtp0) (runOk_of_runOkM pol ops _ h)
+  have fl := run_fl pol ops _ (fl_init maturity mtp0) h
+  apply minable_of_invariants st.chain st.pool l g.good.ok.nds (g.good.ranked U) (inputsAvailable_of_good g.good) _ hl hs
+  intro t ht
+  obtain ⟨e, he, rfl⟩ := mem_txs.1 ht
+  exact fl e he (hfresh e he)
 
 /-! ### constants pinned to the tree -/
 
